@@ -14,7 +14,8 @@ EXPLANATION = (
     "strains() every field of the returned *Strains is into_current_strain_peaks().into_vec() of a skill computed by "
     "DifficultyValues::calculate(difficulty parameter, converted map) — the same call as in difficulty(). R3: strains() "
     "sees the same preprocessed map as difficulty() (sibling rule). R4 (recorded): which difficulty_value each skill "
-    "resolves to. R5: strains() and difficulty() reach the same set of Difficulty::get_* settings. Finiteness / non-negativity of peaks and run-length re-expansion are NOT decided.")
+    "resolves to. R5: strains() and difficulty() reach the same set of Difficulty::get_* settings. R6: within a mode all StrainSkill::process bodies are "
+    "the same code (resolved callees / constants / shape), so every skill opens and closes sections at the same boundaries. Finiteness / non-negativity of peaks and run-length re-expansion are NOT decided.")
 
 TRAIT = 'any::difficulty::skills::StrainSkill'
 
@@ -228,6 +229,7 @@ def run(ctx):
     r2(ctx, F)
     C07.r2_r4(ctx, F, r2=None, r4='C16-R3', methods=['difficulty', 'strains'])
     r4(ctx, F)
+    r6_same_sectioning(ctx, F)
     # ---- R5: strains() and difficulty() consult the same Difficulty settings
     import entries
     for mode in MODES:
@@ -242,3 +244,46 @@ def run(ctx):
                         % (mode, sorted(diff)))
     ctx.not_decided('finiteness and non-negativity of the peaks; equal section counts across skills; re-expansion of zero runs by '
                     'StrainsVec::into_vec; the numeric re-aggregation identity')
+
+
+# ---- R6: all skills of a mode advance their sections with the same code
+def r6_same_sectioning(ctx, F):
+    import re
+    import fingerprint as fp
+
+    def norm(items, adt):
+        out = []
+        for it in items:
+            it = it.replace(adt, 'SKILL')
+            it = re.sub(r'<impl any::difficulty::skills::Strain(Decay)?Skill for [^>]*>', '<impl SKILLTRAIT>', it)
+            it = re.sub(r'(osu|taiko|catch|mania)::difficulty::skills::\w+::_::<impl SKILLTRAIT>::', 'SKILL::', it)
+            it = re.sub(r'(osu|taiko|catch|mania)::difficulty::skills::\w+::\w+::', 'SKILL::', it)
+            out.append(it)
+        return out
+
+    by_mode = {}
+    for f in F.fns:
+        if f.impl_trait == TRAIT and f.name == 'process':
+            m = mode_of(f.self_adt or '')
+            if m:
+                items = norm(fp.fingerprint(f), f.self_adt)
+                # only the sectioning part: everything before the skill-specific strain evaluation
+                cut = [i for i, it in enumerate(items) if it.startswith('call:SKILL::strain_value_at')]
+                by_mode.setdefault(m, []).append((f, items[:cut[0]] if cut else items))
+    n = 0
+    for m, lst in sorted(by_mode.items()):
+        ref_f, ref = lst[0]
+        for f, v in lst:
+            n += 1
+            d = fp.diff(ref, v)
+            ctx.require(d is None, 'C16-R6', '%s:%s' % (m, f.self_adt.split('::')[-1]),
+                        '%s::process advances and closes sections with the same code as %s (all %d %s skills report the same number of sections)' % (
+                            f.self_adt.split('::')[-1], ref_f.self_adt.split('::')[-1], len(lst), m), f.where(),
+                        bad='%s::process differs from %s::process (element %s: `%s` vs `%s`): skills of one mode may report different numbers of sections' % (
+                            f.self_adt.split('::')[-1], ref_f.self_adt.split('::')[-1], d[0] if d else '', d[2] if d else '', d[1] if d else ''))
+        # the section loop saves one peak per boundary: save_current_peak and start_new_section_from are called inside the loop
+        names = [t['func'].get('name') for _, t in ref_f.calls()]
+        ctx.require('save_current_peak' in names and 'start_new_section_from' in names, 'C16-R6', m + ':loop-calls',
+                    'section loop calls save_current_peak + start_new_section_from', ref_f.where(),
+                    bad='%s::process no longer saves the peak / starts a new section at section boundaries' % ref_f.self_adt.split('::')[-1])
+    ctx.floor('C16-R6', n, 9, 'process bodies compared')
